@@ -1715,6 +1715,27 @@ func c01ConfigGenFor(pfx string) func(r *rand.Rand, emit vutil.Emit) {
 					}
 					focus = i
 					op("cadd", strconv.Itoa(i), vutil.B(w))
+				case k == 4:
+					// flip-flop: the source of a list changes and is refreshed, then changes BACK to
+					// the earlier contents and is refreshed again; the second refresh must notice
+					// the way back (a refresh that compares with a stale checksum keeps the
+					// in-between rules: seed C01-19)
+					i := known()
+					w := kind(i)
+					old := content[i]
+					content[i] = c01CfgContent(r)
+					focus = i
+					op("csrc", append([]string{strconv.Itoa(i)}, c01Hexes(content[i])...)...)
+					op("crefresh", w)
+					if ds := about(content[i], false); len(ds) > 0 {
+						query(vutil.Pick(r, ds))
+					}
+					content[i] = old
+					op("csrc", append([]string{strconv.Itoa(i)}, c01Hexes(content[i])...)...)
+					op("crefresh", w)
+					if _, ok := added[i]; ok {
+						stored[i] = content[i]
+					}
 				case k < 12:
 					i := known()
 					j := i
